@@ -36,6 +36,11 @@ PROPS = {
     "C05": planner_prop(["Props/C05.v"], ["C05"], diff_fields={1}),
     "C07": planner_prop(["Props/C07.v"], ["C07"], diff_fields={1}),
     "C08": planner_prop(["Props/C08.v"], ["C08"], diff_fields={1}),
+    "C06": planner_prop(["Props/C06.v"], ["C06", "C01", "C02", "C03"], diff_fields={1},
+                        explanation="level is 'proof' for the deadline state machine, no-false-success and the finite-iteration argument on the model; "
+                                    "the wall-clock part is measured exploration (stage 'timing': real timeouts 0..100 ms, feasible and sealed-goal worlds, "
+                                    "no iteration budget) and labelled partial: the model cannot exhibit scheduler delays or the cost of user callbacks"),
+    "C18": planner_prop(["Props/C18.v"], ["C18"]),
     "C15": planner_prop(["Props/C15.v"], ["C15"]),
     "C16": planner_prop(["Props/C16.v"], ["C16"]),
     "C17": planner_prop(["Props/C17.v"], ["C17"]),
@@ -61,7 +66,13 @@ def stages(pid, tier, seed, replay):
     fams = FAMS_QUICK if tier == "quick" else FAMS_THOROUGH
     if pid in PLANNER_STAGE_FLAGS:
         for name, flags in PLANNER_STAGE_FLAGS[pid]:
-            st.append({"name": name, "kind": "planners", "args": ["--seed", str(seed), "--families", fams] + flags})
+            f2 = fams
+            model = True
+            if "--timing" in flags:
+                # real-clock runs: implementation only, real spaces only
+                f2 = "rv:40,so2:12,so3:12,se2:12,se3:10,css:10" if tier == "quick" else "rv:300,so2:100,so3:100,se2:100,se3:80,css:80"
+                model = False
+            st.append({"name": name, "kind": "planners", "model": model, "args": ["--seed", str(seed), "--families", f2] + flags})
     return st
 
 PLANNER_STAGE_FLAGS = {
@@ -71,6 +82,8 @@ PLANNER_STAGE_FLAGS = {
     "C05": [("planners", [])],
     "C07": [("planners+histories", ["--misuse"])],
     "C08": [("planners+faults+misuse", ["--faults", "--misuse"])],
+    "C06": [("planners", []), ("timing", ["--timing", "--threads", "4"])],
+    "C18": [("prm", ["--only-planner", "prm"]), ("prm:obstacle-free", ["--only-planner", "prm", "--free"])],
     "C15": [("planners:snapshots", []), ("per-iteration:snapshots", ["--per-iteration"])],
     "C16": [("per-iteration", ["--per-iteration"])],
     "C17": [("rrtstar", ["--only-planner", "rrtstar"]), ("rrtstar:obstacle-free", ["--only-planner", "rrtstar", "--free"])],
